@@ -37,13 +37,56 @@ def rand_rotation(rng):
     return sky._rot("z", a) @ sky._rot("x", b) @ sky._rot("z", c)
 
 
-def measure(yaw, sc, expA, expB, work, emb, *, extra=None, order=None, wscale_unk=1.0, wscale_ref=1.0, perm=None, inherit=False, split=False, unweighted_unk=False):
+def near_bisector_centres(sc, A, B, rng, eps_deg=1e-7):
+    """Centre slots (floats) in which ONE centre is moved along the ring until some object is only eps_deg closer to its
+    nearest centre than to the moved one - an object next to a patch boundary, decided unambiguously in double precision
+    (chord^2 differs by ~1e-10 relative).  Exact rational ring arithmetic makes sure no object of the four samples is left
+    with two nearest centres closer together than eps_deg / 2 (ties are not fixed by any property).  None if impossible."""
+    from fractions import Fraction
+
+    M = sc.M
+    cs = [Fraction(c) for c in sc.centres]
+    objs = sorted({o["s"] for o in A["ref"] + A["unk"] + B["ref"] + B["unk"]})
+    eps = Fraction(eps_deg).limit_denominator(10 ** 12) / Fraction(360, M)
+
+    def rd(a, b):
+        d = (a - b) % M
+        return min(d, M - d)
+
+    cands = []
+    for s in objs:
+        order = sorted(range(len(cs)), key=lambda j: rd(s, cs[j]))
+        if len(order) < 2:
+            continue
+        c1, c2 = order[0], order[1]
+        d1 = rd(s, cs[c1])
+        if d1 < 1 or rd(s, cs[c2]) <= d1:
+            continue
+        sign = 1 if (cs[c2] - s) % M <= Fraction(M, 2) else -1
+        new = list(cs)
+        new[c2] = (s + sign * (d1 + eps)) % M
+        ok = len(set(new)) == len(new)
+        for o in objs:
+            ds = sorted(rd(o, c) for c in new)
+            ok = ok and ds[1] - ds[0] >= eps / 2 and ds[0] < Fraction(M, 4)
+        if ok:
+            cands.append(new)
+    if not cands:
+        return None
+    return [float(c) for c in rng.choice(cands)]
+
+
+def measure(yaw, sc, expA, expB, work, emb, *, extra=None, order=None, wscale_unk=1.0, wscale_ref=1.0, perm=None, inherit=False, split=False, unweighted_unk=False,
+            cslots=None):
     import pandas as pd
 
     dref, dunk = sky.frames(sc, expA, emb, extra, order, wscale_unk)
     drref, drnd = sky.frames(sc, expB, emb, extra, order, 1.0)      # the second scenario supplies the random catalogs
     dref["w"] = dref["w"] * wscale_ref
     cen = sky.centre_coords(sc, emb, extra, perm)
+    if cslots is not None:      # centres off the lattice (see near_bisector_centres)
+        cs_ = [cslots[i] for i in perm] if perm is not None else list(cslots)
+        cen = yaw.AngularCoordinates(np.deg2rad(np.array([sky.embed(c, sc.M, emb, extra) for c in cs_])))
     kw = dict(ra_name="ra", dec_name="dec", weight_name="w", overwrite=True, max_workers=1, chunksize=2)
     import shutil
 
@@ -179,10 +222,29 @@ def _case(ctx, yaw, case, A, B, sc, root, rng, embs, nc) -> None:
             transforms.append((f"centres_permuted", dict(emb="equator", perm=perm)))
         transforms.append(("inherited_centres:pole", dict(emb="meridian_pole", inherit=True)))
         transforms.append(("inherited_centres:tilted", dict(emb="tilted", inherit=True)))
+        # an object next to a patch boundary (1e-7 deg nearer to its own centre than to the neighbouring one): which patch
+        # it belongs to - and with it every per-patch result - must survive rotations and centre order like anything else
+        cslots = near_bisector_centres(sc, A, B, rng)
+        base_nb = None
+        if cslots is not None:
+            for emb in embs[1:]:
+                transforms.append((f"rotation,object_next_to_patch_boundary:{emb}", dict(emb=emb, cslots=cslots)))
+            transforms.append(("rotation,object_next_to_patch_boundary:random", dict(emb="equator", extra=rand_rotation(rng), cslots=cslots)))
+            for perm in list(itertools.permutations(range(nc)))[1:3]:
+                transforms.append(("centres_permuted,object_next_to_patch_boundary", dict(emb="equator", perm=perm, cslots=cslots)))
         base_inh = None
         base_unw = None
         for name, kw in transforms:
             ref = base
+            if kw.get("cslots") is not None:
+                if base_nb is None:
+                    try:
+                        base_nb = measure(yaw, sc, A, B, root / "w", "equator", cslots=cslots) or "skip"
+                    except ValueError:
+                        base_nb = "skip"      # the moved centre attracts no object of one of the catalogs: creation refused
+                if base_nb == "skip":
+                    continue
+                ref = base_nb
             if name == "weights_reference_x4,unknown_unweighted":
                 if base_unw is None:
                     base_unw = measure(yaw, sc, A, B, root / "w", "equator", unweighted_unk=True) or "skip"
